@@ -1,2 +1,2 @@
 // ===== prelude/actor_min.rs — units that never run a callback only need the trait names =====
-pub trait Actor: Sized {}
+pub trait Actor: Sized { spec fn gid(&self) -> int; }
